@@ -812,7 +812,18 @@ pub fn c06(cfg: &Config, tr: &Trace, an: &Analysis, out: &mut Vec<Violation>) {
     // dispatch back: eager parser, no fail-fast, no serial scenario. A scenario
     // that has never started must not sit idle next to a free slot (retries that
     // wait for their delay are not counted).
-    let weak = !cfg.lazy && !cfg.fail_fast() && cfg.gran == Gran::L0;
+    // With a lazy parser only the scenarios of features the parser has already handed
+    // over count (the runner polls the parser whenever it is polled).
+    let weak = !cfg.fail_fast() && cfg.gran == Gran::L0;
+    // feature index -> number of events pulled when the parser delivered it
+    let mut delivered_at: BTreeMap<usize, usize> = BTreeMap::new();
+    for l in &tr.log {
+        if let LogKind::ParserDeliver(k) = l.kind {
+            if let Some(Item::Feat(f)) = cfg.items.get(k) {
+                delivered_at.entry(*f).or_insert(l.events_seen);
+            }
+        }
+    }
     let mut ever_started: BTreeSet<String> = BTreeSet::new();
     let serial_names: BTreeSet<&str> =
         an.scens.iter().filter(|s| s.serial).map(|s| s.info.name.as_str()).collect();
@@ -836,12 +847,23 @@ pub fn c06(cfg: &Config, tr: &Trace, an: &Analysis, out: &mut Vec<Violation>) {
                         .scens
                         .iter()
                         .filter(|s| !s.serial && !ever_started.contains(&s.info.name))
+                        // (lazy parser: the statement promises refilling "after each completion",
+                        // so a late feature counts from the first completion after its delivery)
+                        .filter(|s| {
+                            !cfg.lazy
+                                || delivered_at.get(&s.info.feat_idx).is_some_and(|at| {
+                                    tr.events[..i].iter().enumerate().any(|(e, te)| {
+                                        e >= *at && matches!(te.ev.scenario(), Some((_, _, ScEv::Finished)))
+                                    })
+                                })
+                        })
                         .count();
                     let never = never_conc;
                     // a serial scenario may legitimately hold the others back while it runs, while it
                     // has never started (it goes first), or once its retry is due
                     let serial_blocks = !serial_open.is_empty()
                         || serial_names.iter().any(|n| !ever_started.contains(*n))
+                        || (cfg.lazy && !serial_names.is_empty())
                         || serial_waiting.values().any(|(since, delay)| {
                             delay.is_none_or(|d| now.saturating_sub(*since) >= d)
                         });
